@@ -28,6 +28,8 @@ type c09Req struct {
 	body   []byte
 }
 
+var c09FragFirst, c09EventMsgs atomic.Int64
+
 func c09Conn(srv *svc.Server, cid int, seed uint64, nframes int) (viol [][2]string, incon bool, checked int, wit any) {
 	bad := func(sig, detail string) { viol = append(viol, [2]string{sig, detail}) }
 	r := core.NewRand(seed, "c09c", uint64(cid))
@@ -71,6 +73,20 @@ func c09Conn(srv *svc.Server, cid int, seed uint64, nframes int) (viol [][2]stri
 		reqs = append(reqs, mk(i))
 	}
 	first := reqs[0].serial
+	// every fourth connection starts with a lone sub-package fragment (a terminal resuming an upload after a reconnect): the
+	// connection joins with it, so the join callback holds a message that the read callbacks never see
+	fragFirst := cid%4 == 1
+	if fragFirst {
+		first = 0x00f0
+		fb := make([]byte, l)
+		for j := range fb {
+			fb[j] = byte(0x40 + j%0x30)
+		}
+		if t.Write(t.SubFrame(0x0801, first, 3, 2, fb)) != nil {
+			return nil, true, 0, nil
+		}
+		c09FragFirst.Add(1)
+	}
 	// writer: one frame per write, small gaps; every other 0x0801 goes as 3 sub-packages (default configuration: the
 	// parts are filtered, the reassembled message is delivered once, built on the LAST-arrived part), in order 1,2,3 or
 	// 1,3,2, one write or three; the writer then waits for that transfer's reply (it may trail later messages of a shared read)
@@ -116,6 +132,9 @@ func c09Conn(srv *svc.Server, cid int, seed uint64, nframes int) (viol [][2]stri
 	defer close(acked)
 	for i, q := range reqs {
 		rx, ok, to := t.Next(45 * time.Second)
+		for fragFirst && !to && ok && rx.F != nil && rx.F.ID == 0x8003 {
+			rx, ok, to = t.Next(45 * time.Second) // the lone fragment's transfer is re-requested once it has been idle for 5 s: legitimate
+		}
 		if to {
 			if serverAnswersFreshConnection(srv.Addr) {
 				bad("reply|an owed reply never came although the server answers fresh connections at once", fmt.Sprintf("conn %d after %d replies", cid, i))
@@ -190,6 +209,17 @@ func c09Conn(srv *svc.Server, cid int, seed uint64, nframes int) (viol [][2]stri
 	// stability: every message handed to the read callback still equals its snapshot
 	k := 0
 	for _, e := range rec.ReaderLog() {
+		if (e.Kind == "join" || e.Kind == "notsupp") && e.Msg != nil && e.Msg.JTMessage != nil && e.Msg.JTMessage.Header != nil {
+			// the message the join / not-supported callback was handed: same law
+			m := e.Msg
+			if !bytes.Equal(m.JTMessage.Body, e.Data) || !bytes.Equal(m.ExtensionFields.TerminalData, e.Raw) || m.JTMessage.Header.ID != e.ID || m.JTMessage.Header.SerialNumber != e.Serial ||
+				m.JTMessage.Header.TerminalPhoneNo != e.Phone || m.JTMessage.Header.SubPackageSum != e.Sum || m.JTMessage.Header.SubPackageNo != e.No || svc.DumpBytesAndStrings(m.JTMessage.Header) != e.HdrDump {
+				bad("stable|a message handed to the "+e.Kind+" callback changed afterwards", fmt.Sprintf("conn %d: at the callback id %04x serial %d package %d/%d body %s; after the connection closed id %04x serial %d package %d/%d body %s",
+					cid, e.ID, e.Serial, e.No, e.Sum, core.HexCap(e.Data, 12), m.JTMessage.Header.ID, m.JTMessage.Header.SerialNumber, m.JTMessage.Header.SubPackageNo, m.JTMessage.Header.SubPackageSum, core.HexCap(m.JTMessage.Body, 12)))
+			}
+			c09EventMsgs.Add(1)
+			continue
+		}
 		if e.Kind != "read" || e.Msg == nil {
 			continue
 		}
@@ -347,6 +377,8 @@ func c09Socket(c *core.Collector, x *Ctx) {
 	svc.YieldFromEnv(seed)
 	c09Suite(c, c.Seed, x.Batch, c.N(8, 24), c.N(300, 2500))
 	c.Count("socket_reassembled_transfers_completed_by_a_later_packet", c09Splits.Load())
+	c.Count("socket_connections_starting_with_a_lone_fragment", c09FragFirst.Load())
+	c.Count("socket_join_and_notsupported_messages_rechecked", c09EventMsgs.Load())
 	c.Floor("socket_reassembled_transfers_completed_by_a_later_packet", 50)
 	d, tot := svc.SitesHit()
 	c.Count("yield_sites_hit", int64(d))
